@@ -2,7 +2,7 @@
 import json, os, tempfile
 from . import tlc
 from .common import mktempdir as _mktempdir
-from .common import EXACT_EMBS, DEC_EMBS, unfl, run_driver_parallel
+from .common import EXACT_EMBS, DEC_EMBS, EXTREME_EMBS, unfl, run_driver_parallel
 from .dgm import gen_dgm, to_float_dgm, fin, bott_certificate
 
 
@@ -101,7 +101,7 @@ def validate(ctx, pairs, embs, label, mine, hashseeds=(0,), nproc=12):
 
 
 def all_embs():
-    return EXACT_EMBS + DEC_EMBS
+    return EXACT_EMBS + DEC_EMBS + EXTREME_EMBS
 
 
 def run(ctx, mine):
